@@ -357,15 +357,24 @@ fn make_bracket_class(
     ir::Node::Bracket(BracketContents { invert: false, cps })
 }
 
-fn add_class_atom(bc: &mut BracketContents, atom: ClassAtom) {
+/// `icase` is `Some(unicode)` when matching is case-insensitive.
+fn add_class_atom(bc: &mut BracketContents, atom: ClassAtom, icase: Option<bool>) {
     match atom {
         ClassAtom::CodePoint(c) => bc.cps.add_one(c),
         ClassAtom::CharacterClass {
             class_type,
             positive,
-        } => {
-            bc.cps.add_set(codepoints_from_class(class_type, positive));
-        }
+        } => match icase {
+            // A negated class escape is the complement of the case-closed positive class
+            // (as outside a bracket), not the closure of the complement: [\W] must not
+            // match 'k' just because U+212A folds to it.
+            Some(unicode) if !positive => {
+                let cps = codepoints_from_class_positive(class_type);
+                bc.cps
+                    .add_set(unicode::add_icase_code_points_in(cps, unicode).inverted());
+            }
+            _ => bc.cps.add_set(codepoints_from_class(class_type, positive)),
+        },
         ClassAtom::Range { iv, negate } => {
             if negate {
                 bc.cps.add_set(iv.inverted());
@@ -844,6 +853,7 @@ where
             invert,
             cps: CodePointSet::default(),
         };
+        let fold = self.flags.icase.then_some(self.flags.unicode);
 
         loop {
             match self.peek().map(to_char_sat) {
@@ -868,14 +878,14 @@ where
 
             // Check for a dash; we may have a range.
             if !self.try_consume('-') {
-                add_class_atom(&mut result, first);
+                add_class_atom(&mut result, first, fold);
                 continue;
             }
 
             let Some(second) = self.try_consume_bracket_class_atom()? else {
                 // No second atom. For example: [a-].
-                add_class_atom(&mut result, first);
-                add_class_atom(&mut result, ClassAtom::CodePoint(u32::from('-')));
+                add_class_atom(&mut result, first, fold);
+                add_class_atom(&mut result, ClassAtom::CodePoint(u32::from('-')), fold);
                 continue;
             };
 
@@ -900,9 +910,9 @@ where
             }
 
             // If it does not match a range treat as any match single characters.
-            add_class_atom(&mut result, first);
-            add_class_atom(&mut result, ClassAtom::CodePoint(u32::from('-')));
-            add_class_atom(&mut result, second);
+            add_class_atom(&mut result, first, fold);
+            add_class_atom(&mut result, ClassAtom::CodePoint(u32::from('-')), fold);
+            add_class_atom(&mut result, second, fold);
         }
     }
 
